@@ -218,6 +218,25 @@ def copy_laws(line, out):
         a, b = observable(pre, p), observable(post, p)
         if a != b and not (a is None and under(dt, p)):      # missing destination directories are created as needed
             return False
+        if a is None and b is not None and under(dt, p):
+            # a destination directory created on the way: a directory, with the mode a chmod option gives directories, else the mode of the
+            # source directory (for a file source: of the directory the file is in)
+            ne = post["ents"][p]
+            if not ne["dir"] or ne["link"]:
+                return False
+            if "all" in opts:
+                want = int(opts["all"]) | 0o40000
+            elif "cdirs" in opts:
+                want = int(opts["cdirs"]) | 0o40000
+            else:
+                se = pe[src]
+                if se["dir"] and not se["link"]:
+                    want = se["mode"]
+                else:
+                    par = src.rsplit("/", 1)[0] or "/"
+                    want = pe[par]["mode"] if par in pe else None
+            if want is not None and ne["mode"] != want:
+                return False
     return True
 
 
